@@ -4,14 +4,17 @@
    combinator tree [c] as CombinatorStep.run does and returns, per arrival, the emitted combinations
    (port -> (id, tag) maps) and the exception that ended the run, if any.
 
-   WHAT IS PROVED FOR ALL INPUTS: the dot product over "flat" streams (any number of ports and tags, no tag an
-   ancestor of another, each port carrying each tag at most once), for every arrival order; and its one-tag special
-   case with an explicit order-independence corollary.  The other statements of the property text (broadcast of
-   parent tags, cartesian cross product and composite tags, nesting) are NOT proved; they are decided case by case
-   by the check's oracle and tied to the model by the correspondence.
+   WHAT IS PROVED FOR ALL INPUTS (every arrival order, unbounded ports / tags / tokens):
+     - the dot product over "flat" streams (no tag an ancestor of another) + order independence of the emitted bag;
+     - the dot product with BROADCAST of parent tokens, for one scattered port and any number of parent ports;
+     - the CARTESIAN product of depth d >= 1 over streams whose tag groups are unrelated (e.g. all tokens of one
+       depth): exactly the full cross product, each combination once, composite tags + order independence;
+     - the one-tag dot product (special case, kept).
+   NOT PROVED: broadcast with several scattered ports / several levels (per-port antichains in general), nesting.
+   These are decided case by case by the check's oracle and tied to the model by the correspondence.
    The three [_refuted] theorems are the input classes where the faithful model (and the code) break the text. *)
-From Coq Require Import List Bool NArith Arith Permutation.
-From SF Require Import Base.Str Tags.Model Comb.Model Comb.Proofs Comb.Flat.
+From Coq Require Import List Ascii Bool NArith Arith Permutation.
+From SF Require Import Base.Str Tags.Model Comb.Model Comb.Proofs Comb.Flat Comb.Cart Comb.Bcast.
 Import ListNotations.
 Local Open Scope string_scope. Local Open Scope list_scope.
 
@@ -24,6 +27,56 @@ Local Open Scope string_scope. Local Open Scope list_scope.
 Theorem C02_dot_flat_partial : forall items (arr : list arv),
   wf items arr -> run (c1 items) init_state arr = (outs_spec items [] arr, None).
 Proof. exact dot_flat. Qed.
+
+(* ORDER INDEPENDENCE, flat dot product: two arrival orders of the same tokens raise nothing and emit equal bags of
+   combinations (a combination being a port -> token map: [bag_eq] matches the two lists up to order of the list and
+   up to the order of the entries inside a combination). *)
+Theorem C02_order_independent_flat_partial : forall items (arr1 arr2 : list arv),
+  wf items arr1 -> Permutation arr1 arr2 ->
+  snd (run (c1 items) init_state arr1) = None /\ snd (run (c1 items) init_state arr2) = None /\
+  bag_eq (concat (fst (run (c1 items) init_state arr1))) (concat (fst (run (c1 items) init_state arr2))).
+Proof. exact dot_flat_order_independent. Qed.
+
+(* CARTESIAN PRODUCT of depth d >= 1 over the ports [items] (distinct, at least one), fed ANY arrival list in which
+   every port carries each tag at most once and the tag groups (tag minus its last d components) of distinct groups
+   are unrelated ([wfc]; implied by "all tokens have the same depth", next theorem).  A choice is one arrived token
+   per port, all of one group, listed in port order.  The run never raises; what it emits is [mk_out] (the composite
+   tag: own tag minus last component, followed by the last components of all members in port order) of a list of
+   choices that has no duplicates and contains exactly all choices: the full cross product, each combination
+   once, whatever the arrival order. PARTIAL: mixed depths are excluded (C02_cart_mixed_depth_refuted). *)
+Theorem C02_cartesian_partial : forall items d (Hd : d <> 0) (arr : list arv),
+  items <> [] -> wfc items d arr ->
+  run (cc items d) init_state arr = (map (map mk_out) (ems items d [] arr), None) /\
+  NoDup (concat (ems items d [] arr)) /\
+  forall ch, In ch (concat (ems items d [] arr)) <-> is_choice items d arr ch.
+Proof. exact cart_full. Qed.
+
+Theorem C02_uniform_depth_groups_unrelated : forall d D (arr : list arv),
+  (forall x, In x arr -> length (split_on "." (atag x)) = D) -> gflat d arr.
+Proof. exact uniform_depth_gflat. Qed.
+
+(* ORDER INDEPENDENCE, cartesian product: equal bags (here combinations are listed in port order, so plain
+   permutation of the emitted lists) *)
+Theorem C02_order_independent_cartesian_partial : forall items d (Hd : d <> 0) (arr1 arr2 : list arv),
+  items <> [] -> wfc items d arr1 -> Permutation arr1 arr2 ->
+  snd (run (cc items d) init_state arr1) = None /\ snd (run (cc items d) init_state arr2) = None /\
+  Permutation (concat (fst (run (cc items d) init_state arr1))) (concat (fst (run (cc items d) init_state arr2))).
+Proof. exact cart_order_independent. Qed.
+
+(* BROADCAST (single scattered port): the ports [items] (distinct) are one scattered port dp, whose tokens carry tags
+   that are strict descendants of the tag r and pairwise unrelated (each at most once), and any number of other ports
+   that each deliver at most one token tagged r ([wfb]).  For EVERY arrival order the run never raises and
+   equals [outs_b]: the combination of a key k (a scattered tag, or r itself when there is nothing scattered) is
+   emitted exactly at the arrival that makes its token set -- the token tagged k plus the broadcast tokens tagged r --
+   reach one per port, and holds exactly those tokens; nothing else is emitted.  The parent tokens are therefore
+   broadcast to every deeper tag, once each, whenever they arrive (before, between or after the scattered tokens; a
+   late parent token completes several keys at once).
+   PARTIAL: one scattered port and one shallow tag only; the general per-port-antichain statement of the design
+   (several deep ports, several levels) is not proved -- there the code keeps duplicate copies of the parent tokens
+   and the invariant is no closed form (see design/notes/C02.md). *)
+Theorem C02_dot_broadcast_partial : forall items r dp (arr : list arv),
+  wfb items r dp arr -> run (c1 items) init_state arr = (outs_b items r [] arr, None).
+Proof. exact dot_broadcast. Qed.
 
 (* PARTIAL (one tag only): a dot product over the ports [items], one token per port, all tagged g, arriving in ANY
    order: nothing is emitted before the last arrival, which emits exactly one combination holding every port's
@@ -90,6 +143,36 @@ Proof.
     destruct Hx as [<-|[<-|[<-|[<-|[]]]]]; destruct Hy as [<-|[<-|[<-|[<-|[]]]]]; intros N;
       try (exfalso; apply N; reflexivity); vm_compute; reflexivity.
 Qed.
+(* the hypotheses of the cartesian theorem are met (depth 1, tokens of depth 2, indices 9/10/11) *)
+Example C02_cartesian_hyp_example :
+  let arr : list arv := [("a", (0%N, "0.9")); ("b", (1%N, "0.10")); ("a", (2%N, "0.11"))] in
+  wfc ["a"; "b"] 1 arr /\
+  concat (ems ["a"; "b"] 1 [] arr) =
+    [[("a", (0%N, "0.9")); ("b", (1%N, "0.10"))]; [("a", (2%N, "0.11")); ("b", (1%N, "0.10"))]].
+Proof.
+  split; [|vm_compute; reflexivity]. split; [|split; [|split]].
+  - repeat (apply NoDup_cons; [simpl; intuition congruence|]). apply NoDup_nil.
+  - simpl. intros x [<-|[<-|[<-|[]]]]; simpl; auto.
+  - unfold akey, atag. simpl. repeat (apply NoDup_cons; [simpl; intuition congruence|]). apply NoDup_nil.
+  - apply (uniform_depth_gflat 1 2). simpl. intros x [<-|[<-|[<-|[]]]]; vm_compute; reflexivity.
+Qed.
+(* the hypotheses of the broadcast theorem are met: ports a (parent, tag 0) and b (scattered: 0.9, 0.10); the parent
+   arrives between the two scattered tokens *)
+Example C02_broadcast_hyp_example :
+  let arr : list arv := [("b", (1%N, "0.9")); ("a", (0%N, "0")); ("b", (2%N, "0.10"))] in
+  wfb ["a"; "b"] "0" "b" arr /\
+  outs_b ["a"; "b"] "0" [] arr =
+    [[]; [[("b", (1%N, "0.9")); ("a", (0%N, "0.9"))]]; [[("a", (0%N, "0.10")); ("b", (2%N, "0.10"))]]].
+Proof.
+  split; [|vm_compute; reflexivity]. split; [|split; [|split; [|split; [|split]]]].
+  - repeat (apply NoDup_cons; [simpl; intuition congruence|]). apply NoDup_nil.
+  - simpl. auto.
+  - simpl. intros x [<-|[<-|[<-|[]]]]; simpl; auto.
+  - unfold akey, atag. simpl. repeat (apply NoDup_cons; [simpl; intuition congruence|]). apply NoDup_nil.
+  - simpl. intros x [<-|[<-|[<-|[]]]]; vm_compute; repeat split; congruence.
+  - simpl. intros x y [<-|[<-|[<-|[]]]] [<-|[<-|[<-|[]]]] Px Py N; try discriminate Px; try discriminate Py;
+      try (exfalso; apply N; reflexivity); vm_compute; reflexivity.
+Qed.
 (* broadcast of a parent tag and a cartesian product, as the model computes them (not covered by a theorem) *)
 Example C02_broadcast_example :
   concat (fst (run (mkouter KDot [IPort "a"; IPort "b"]) init_state
@@ -103,6 +186,11 @@ Example C02_cartesian_example :
 Proof. vm_compute. reflexivity. Qed.
 
 Print Assumptions C02_dot_flat_partial.
+Print Assumptions C02_order_independent_flat_partial.
+Print Assumptions C02_cartesian_partial.
+Print Assumptions C02_uniform_depth_groups_unrelated.
+Print Assumptions C02_order_independent_cartesian_partial.
+Print Assumptions C02_dot_broadcast_partial.
 Print Assumptions C02_dot_one_tag_partial.
 Print Assumptions C02_order_independent_one_tag_partial.
 Print Assumptions C02_dot_ancestor_pair_refuted.
